@@ -13,7 +13,7 @@ ASSUMPTIONS = [
     "the bounds invariant is shown for one operation from an arbitrary state satisfying it; induction over sequences of operations is stated, not discharged",
 ]
 BOUNDS = {
-    "quick": "bounds step: any real value/min/max/update, 4 bound configurations x 4 operations x numeric/non-numeric arguments; liveness: parameters in bs reflectivity / ps phase / loss, plain, inside a group, inside an added heralded sub-circuit, reused twice; one set v1->v2",
+    "quick": "bounds step: any real value/min/max/update, 4 bound configurations x 4 operations x numeric/non-numeric arguments; two Parameters created from one bounds list/tuple (bound update of one, caller editing the list afterwards); liveness: parameters in bs reflectivity / ps phase / loss, plain, inside a group, inside an added heralded sub-circuit, reused twice; one set v1->v2",
     "thorough": "adds two successive operations on the same parameter and ParameterDict sequences",
 }
 OUTSIDE = "non-finite floats; parameters of non-numeric type other than the listed probes; circuits beyond the listed shapes"
@@ -275,9 +275,50 @@ def h_zero_loss_param(ctx, via):
     ctx.check_eq(c.U, build(l2).U, f"{via}:zero-loss-parameter:U-follows-the-new-value")
 
 
+def h_shared_bounds(ctx, container, op):
+    """two Parameters created from the same bounds object: an accepted or rejected bound update of one never
+    moves the other's bounds (its value stays inside its own bounds), and editing the caller's container
+    afterwards changes neither"""
+    lw = ctx.lw
+    from lightworks.sdk.utils.exceptions import ParameterBoundsError, ParameterValueError
+    lo, hi = ctx.real("lo"), ctx.real("hi")
+    v1, v2 = ctx.real("v1"), ctx.real("v2")
+    ctx.assume(lo <= v1)
+    ctx.assume(v1 <= hi)
+    ctx.assume(lo <= v2)
+    ctx.assume(v2 <= hi)
+    raw = [lo, hi]
+    shared = raw if container == "list" else tuple(raw)
+    p1 = lw.Parameter(v1, bounds=shared)
+    p2 = lw.Parameter(v2, bounds=shared)
+    x = ctx.real("x")
+    try:
+        if op == "min":
+            p1.min_bound = x
+        elif op == "max":
+            p1.max_bound = x
+        else:
+            raw[0] = x
+            raw[1] = x
+    except (ParameterBoundsError, ParameterValueError):
+        pass
+    _same(ctx, p2.min_bound, lo, f"shared-bounds:{op}:other-parameter-keeps-its-min")
+    _same(ctx, p2.max_bound, hi, f"shared-bounds:{op}:other-parameter-keeps-its-max")
+    _inv(ctx, p2, f"shared-bounds:{op}:other-parameter:invariant")
+    _inv(ctx, p1, f"shared-bounds:{op}:updated-parameter:invariant")
+    if op == "caller-edit":
+        _same(ctx, p1.min_bound, lo, "shared-bounds:caller-edit:min-unchanged")
+        _same(ctx, p1.max_bound, hi, "shared-bounds:caller-edit:max-unchanged")
+    else:
+        ctx.check(len(raw) == 2, "shared-bounds:callers-container-keeps-its-length")
+        _same(ctx, raw[0], lo, f"shared-bounds:{op}:callers-container-unchanged")
+        _same(ctx, raw[1], hi, f"shared-bounds:{op}:callers-container-unchanged")
+
+
 def harnesses(tier):
     return [
         ("bounds-step", h_bounds_step, bounds_cases(tier)),
+        ("shared-bounds", h_shared_bounds, [dict(container=c, op=o) for c in ("list", "tuple") for o in ("min", "max", "caller-edit")]),
         ("live", h_live, live_cases(tier)),
         ("live.raw", h_live, [c for c in live_cases(tier) if c["where"] in ("plain", "group") and not c.get("rewrite")], dict(raw=True)),
         ("zero-loss-parameter", h_zero_loss_param, [dict(via=v) for v in ("bs", "ps", "loss")]),
